@@ -419,10 +419,29 @@ def run_interleaved(case):
   return R(None, True, (wa, wb, order))
 
 
+def gen_types(run):
+  from ..routes import struct_params
+  try:
+    T = route_table()
+  except Exception:
+    T = {}
+  for name, ent in T.items():
+    if struct_params(ent[1]):
+      yield (name,)
+
+
+def run_types(case):
+  from ..routes import struct_params, types_agree
+  ent = route_table()[case[0]]
+  return types_agree(case[0], ent[0], ent[1], ent[2], struct_params(ent[1]))
+
+
 KINDS = OrderedDict([
   ("wav", Kind(gen_wav, run_wav, chunk=4, rule="WAV files x reading configurations; non-trivial: a sample with the sign bit set")),
   ("chunks", Kind(gen_chunks, run_chunks, chunk=200, rule="chunks configurations; non-trivial: padding needed or non-native byte order")),
   ("call-routes", Kind(gen_routes, run_routes, chunk=1,
                        rule="each function with every documented parameter set: all positional / all keyword / every split must agree")),
   ("interleaved", Kind(gen_interleaved, run_interleaved, chunk=8, rule="pairs of (width, channels) files x keep x reading order; two streams alive together")),
+  ("param-types", Kind(gen_types, run_types, chunk=1,
+                       rule="structural integer parameters given as integral float / Fraction / bool: same result wherever the type is accepted")),
 ])
